@@ -130,23 +130,34 @@ def execute_string(desc, ctx):
 
 # ------------------------------------------------------------------ (b) random
 
+SNIPPETS = ['\\n', '\\"', '\r\n', '\\\\', '\\\n', '\\\r', '\\\r\n', '"', '\\', '\n', '\r', "\\'", '\\t', '\\?', '\\/', '""', '" "',
+            '\t', 'key', ' ', '//', '/*', '*/', '\\x', '\\0', '\\u1234', '{', '}', '[', ']', '\x00', '\ufeff', '\u2028', '\x85']
+
+
 def char_strategy():
+    """About 55 % escape alphabet, 45 % other characters (ASCII, BMP, astral)."""
     return st.one_of(
-        st.characters(exclude_categories=['Cs']),
         st.sampled_from(ALPHABET),
         st.characters(exclude_categories=['Cs']),
+        st.sampled_from(ALPHABET),
+        st.characters(max_codepoint=0x7f),
         st.sampled_from(['\\', '"', '\r', '\n', '\\', 'n', 't', 'r']),
+        st.characters(exclude_categories=['Cs'], max_codepoint=0xffff),
+    )
+
+
+def string_strategy(max_size: int = 300):
+    return st.one_of(
+        st.text(char_strategy(), max_size=min(30, max_size)),
+        st.text(char_strategy(), min_size=min(40, max_size), max_size=max_size),
+        st.text(st.characters(exclude_categories=['Cs']), max_size=max_size),
+        st.lists(st.one_of(st.sampled_from(SNIPPETS), char_strategy()), max_size=max(1, max_size // 3)).map(''.join),
+        st.text(st.sampled_from(ALPHABET), max_size=min(60, max_size)),
     )
 
 
 def random_cases(tier: str):
-    text = st.one_of(
-        st.text(char_strategy(), max_size=300),
-        st.text(char_strategy(), max_size=20),
-        st.text(st.sampled_from(ALPHABET), max_size=40),
-        st.text(st.characters(exclude_categories=['Cs']), max_size=300),
-    )
-    return st.fixed_dictionaries({'s': text})
+    return st.fixed_dictionaries({'s': string_strategy(300)})
 
 
 # ------------------------------------------------------------------ (c) embedding
@@ -155,11 +166,7 @@ WORD_CHARS = 'abcXYZ019_.$%-'
 
 
 def embed_cases(tier: str):
-    s = st.one_of(
-        st.text(char_strategy(), max_size=12),
-        st.text(st.sampled_from(ALPHABET), max_size=6),
-        st.text(char_strategy(), max_size=80),
-    )
+    s = st.one_of(string_strategy(12), string_strategy(12), string_strategy(80))
     word = st.text(st.sampled_from(WORD_CHARS), min_size=1, max_size=6)
     item = st.one_of(
         st.tuples(st.just('q'), s).map(list),
